@@ -168,6 +168,32 @@ func c01Gen(r *rand.Rand, tier string) any {
 				op = opSpec{Op: "build", Label: op.Label, DryNil: true, N: r.IntN(2)}
 			}
 			sc.Ops = append(sc.Ops, op)
+		case k < 18 && r.IntN(2) == 0:
+			// the dependency SET of a target changes (a glob gains a file, an edge is added),
+			// the rebuild is interrupted, and the change is undone: the tree is what it was
+			label := pickLabel(r, shadow)
+			var eds [][2]opSpec
+			for _, t := range shadow.closure(label) {
+				for _, g := range t.GlobDirs {
+					rel := shadow.sourceRel(t, g)
+					eds = append(eds, [2]opSpec{{Op: "dir-add", Path: rel, N: 500 + i}, {Op: "dir-unadd", Path: rel, N: 500 + i}})
+				}
+				for _, o := range shadow.closure(label) {
+					if o != t && !shadow.reaches(o, t) && !t.ReadsDeps {
+						has := false
+						for _, d := range t.Deps {
+							has = has || d == o.label()
+						}
+						if !has {
+							eds = append(eds, [2]opSpec{{Op: "add-dep", Label: t.label(), Item: o.label()}, {Op: "remove-dep-label", Label: t.label(), Item: o.label()}})
+						}
+					}
+				}
+			}
+			if len(eds) > 0 {
+				e := eds[r.IntN(len(eds))]
+				sc.Ops = append(sc.Ops, opSpec{Op: "build", Label: label}, e[0], opSpec{Op: "build", Label: label, CrashAt: 1 + r.IntN(700)}, e[1], opSpec{Op: "build", Label: label})
+			}
 		case k < 18:
 			sc.Ops = append(sc.Ops, opSpec{Op: "gc"})
 		case k < 19:
